@@ -448,6 +448,16 @@ var e2ePool = []e2eType{
 	{"[2]string", ""},
 	{"bool", "bool"},
 	{"float64", "float64"},
+	// same type name, same package name, two import paths (p/x/model, p/y/model)
+	{"xm.T", "T"},
+	{"ym.T", "T"},
+}
+
+const e2eLocal = 7 // pool entries below this index need no import
+
+var e2eModelFiles = map[string]string{
+	"x/model/m.go": "package model\n\ntype T int\n",
+	"y/model/m.go": "package model\n\ntype T string\n",
 }
 
 var e2ePrefixes = []string{"deriveEqual", "deriveCompare"}
@@ -462,7 +472,14 @@ type e2ePkg struct {
 
 func (p *e2ePkg) source() string {
 	var b strings.Builder
-	b.WriteString("package p\n\ntype N int\n\ntype F float64\n\n")
+	b.WriteString("package p\n\n")
+	if p.ntypes > e2eLocal {
+		b.WriteString("import xm \"p/x/model\"\n")
+	}
+	if p.ntypes > e2eLocal+1 {
+		b.WriteString("import ym \"p/y/model\"\n")
+	}
+	b.WriteString("\ntype N int\n\ntype F float64\n\n")
 	if !p.split() {
 		b.WriteString(p.reservedDecls())
 	}
@@ -593,9 +610,30 @@ func checkTypes(dir string, files []string) (*types.Info, []*ast.File, *token.Fi
 
 type lockedImporter struct{}
 
+var localPkgs = map[string]*types.Package{}
+
 func (lockedImporter) Import(path string) (*types.Package, error) {
 	srcImporterMu.Lock()
 	defer srcImporterMu.Unlock()
+	if strings.HasPrefix(path, "p/") {
+		if pk, ok := localPkgs[path]; ok {
+			return pk, nil
+		}
+		src, ok := e2eModelFiles[strings.TrimPrefix(path, "p/")+"/m.go"]
+		if !ok {
+			return nil, fmt.Errorf("unknown local package %s", path)
+		}
+		af, err := parser.ParseFile(srcFset, path+"/m.go", src, 0)
+		if err != nil {
+			return nil, err
+		}
+		pk, err := (&types.Config{}).Check(path, srcFset, []*ast.File{af}, nil)
+		if err != nil {
+			return nil, err
+		}
+		localPkgs[path] = pk
+		return pk, nil
+	}
 	return srcImporter.Import(path)
 }
 
@@ -781,6 +819,9 @@ func e2eRun(cfg hx.Config, meta *hx.Meta, p *e2ePkg, src, dir string, a, d, vet 
 	if err := os.WriteFile(filepath.Join(dir, "a.go"), []byte(src), 0o644); err != nil {
 		return "(harness-error)", 0
 	}
+	if err := hx.WriteFiles(dir, e2eModelFiles); err != nil {
+		return "(harness-error)", 0
+	}
 	userFiles := []string{"a.go"}
 	os.Remove(filepath.Join(dir, "z.go"))
 	if p.split() {
@@ -802,6 +843,11 @@ func e2eRun(cfg hx.Config, meta *hx.Meta, p *e2ePkg, src, dir string, a, d, vet 
 	files := map[string]string{"go.mod": "module p\n\ngo 1.24\n", "a.go": src}
 	if p.split() {
 		files["z.go"] = p.sourceZ()
+	}
+	if p.ntypes > e2eLocal {
+		for k, v := range e2eModelFiles {
+			files[k] = v
+		}
 	}
 	direct := func(class, what, out string) {
 		f := map[string]string{}
@@ -922,6 +968,14 @@ func e2eRun(cfg hx.Config, meta *hx.Meta, p *e2ePkg, src, dir string, a, d, vet 
 		ti, ok := e2eTypeIndex[ts]
 		if !ok {
 			ti = -1
+		}
+		if nt, isNamed := info.Types[fd.Type.Params.List[0].Type].Type.(*types.Named); isNamed && nt.Obj().Pkg() != nil {
+			switch nt.Obj().Pkg().Path() {
+			case "p/x/model":
+				ti = e2eLocal
+			case "p/y/model":
+				ti = e2eLocal + 1
+			}
 		}
 		tables[pl] = append(tables[pl], fmt.Sprintf("(%s %d)", fd.Name.Name, ti))
 		perClass[[2]int{pl, ti}]++
